@@ -15,6 +15,14 @@ from .base import T0, minutes
 from .kit import Ctx
 
 
+AUTO_BEGIN = [True]  # the actuator driver (actdrv.py) switches this off: there the real Actuator.run positions the markets
+
+
+def _begin(ctx, bar):
+    if AUTO_BEGIN[0]:
+        ctx.begin_bar(bar)
+
+
 class World:
     """name, build() -> Ctx positioned at the frozen bar, alphabet(ctx) -> [Op], roots (seeded portfolios as label prefixes)."""
 
@@ -57,7 +65,7 @@ def uni_world(orient="q0", frozen_bar=1, closes=(200000, 200013, 199991), fee_vo
     def build():
         m = uni.make_market(pool, data, "uni")
         ctx = Ctx(f"uni({orient})", prices, quote, [UniAdapter(m, ranges)], [(uni.USDC, 10000), (uni.WETH, 5)], data.index)
-        ctx.begin_bar(frozen_bar)
+        _begin(ctx, frozen_bar)
         return ctx
 
     roots = (
@@ -91,7 +99,7 @@ def uni_xq_world(frozen_bar=1):
     def build():
         m = uni.make_market(pool, data, "uni")
         ctx = Ctx("uni(xq)", prices, USD, [UniAdapter(m, ranges)], [(wbtc, 2), (weth, 30)], data.index)
-        ctx.begin_bar(frozen_bar)
+        _begin(ctx, frozen_bar)
         return ctx
 
     roots = ((), ("uni.add[in,part,part]",), ("uni.add[in,part,part]", "uni.add[lo,part,part]"))
@@ -110,7 +118,7 @@ def aave_world(frozen_bar=1, n=4):
         ctx = Ctx("aave", prices, USD, [aave.AaveAdapter(m, frames)],
                   [(aave.WETH, 10), (aave.USDC, 20000), (aave.DAI, 5000), (aave.USDT, 8000), (aave.AAVE, 50), (aave.WBTC, 1)],
                   prices.index)
-        ctx.begin_bar(frozen_bar)
+        _begin(ctx, frozen_bar)
         return ctx
 
     roots = (
@@ -139,7 +147,7 @@ def squeeth_world(kind="eq", frozen_bar=8, n=10, with_osqth=True):
         sa = sq.SqueethAdapter(sm, ua, sdata)
         # without an oSQTH wallet entry a mint CREATES the entry: a rejected mint must not leave it behind
         ctx = Ctx(name, prices, USD, [ua, sa], [(sq.WETH, 20), (sq.OSQTH, 50)] if with_osqth else [(sq.WETH, 20)], sdata.index)
-        ctx.begin_bar(frozen_bar)
+        _begin(ctx, frozen_bar)
         return ctx
 
     roots = (
@@ -167,7 +175,7 @@ def deribit_world(frozen_bar=1):
     def build():
         m = db.make_market(data)
         ctx = Ctx("deribit", prices, USD, [db.DeribitAdapter(m, data)], [(db.ETH, 4)], index)
-        ctx.begin_bar(frozen_bar)
+        _begin(ctx, frozen_bar)
         return ctx
 
     roots = (
@@ -190,7 +198,7 @@ def gmx1_world(frozen_bar=1, usdg_class=None):
     def build():
         m = gmx.make_v1(data)
         ctx = Ctx("gmx1", prices, USD, [gmx.Gmx1Adapter(m, data)], [(gmx.WETH, 3), (gmx.WAVAX, 200), (gmx.USDC, 5000)], data.index)
-        ctx.begin_bar(frozen_bar)
+        _begin(ctx, frozen_bar)
         return ctx
 
     roots = ((), ("gmx1.buy_glp[WETH,part]",), ("gmx1.buy_glp[WETH,part]", "gmx1.buy_glp[WAVAX,part]"))
@@ -206,10 +214,95 @@ def gmx2_world(frozen_bar=1, kind="mild", impact="small"):
     def build():
         m = gmx.make_v2(data)
         ctx = Ctx(f"gmx2({kind},{impact})", prices, USD, [gmx.Gmx2Adapter(m, data)], [(gmx.V2_LONG, 4), (gmx.V2_SHORT, 9000)], data.index)
-        ctx.begin_bar(frozen_bar)
+        _begin(ctx, frozen_bar)
         return ctx
 
     roots = ((), ("gmx2.deposit[part,part]",), ("gmx2.deposit[part,0]", "gmx2.deposit[0,part]"))
     w = World(f"gmx2({kind},{impact})", build, roots, {"gmx2.data": data, "prices": prices})
     w.allowed_gain = lambda ctx, op: ctx.adapters[0].allowed_gain(ctx, op)
     return w
+
+
+# ---------------------------------------------------------------------------------------------------------
+def aave_path_world(n=5):
+    """Aave with moving prices (a liquidating bar) and per-token index growth: for the bar-by-bar properties (C01, C02, C05)."""
+    from . import aave
+
+    frames = aave.make_data(n)
+    prices = aave.price_frame(n, {"WETH": [1, "1.01", "0.58", "0.6", "0.9"][:n], "DAI": [1, "1.002", 1, "0.998", 1][:n],
+                                  "WBTC": [1, "0.97", "1.04", 1, 1][:n]})
+
+    def build():
+        m = aave.make_market(frames)
+        ctx = Ctx("aave(path)", prices, USD, [aave.AaveAdapter(m, frames)],
+                  [(aave.WETH, 10), (aave.USDC, 20000), (aave.DAI, 5000), (aave.USDT, 8000), (aave.AAVE, 50), (aave.WBTC, 1)], prices.index)
+        _begin(ctx, 0)
+        return ctx
+
+    roots = ((), ("aave.supply[WETH,part,C]", "aave.borrow[USDC,near]"), ("aave.supply[WETH,part,C]", "aave.supply[USDC,part,C]", "aave.borrow[DAI,third]"),
+             ("aave.supply[USDT,part,N]", "aave.supply[WETH,part,C]", "aave.borrow[USDC,near]"))
+    fr = {f"aave.{k}": v for k, v in frames.items()}
+    fr["prices"] = prices
+    return World("aave(path)", build, roots, fr)
+
+
+def uni_aave_world(n=4):
+    """Two markets in one account: a USDC/WETH pool quoted in USDC and Aave; account quoted in USD (the pool's quote differs from the account's)."""
+    from . import aave
+
+    pool = uni.pool_q0()
+    ticks = [200000, 200013, 199400, 199991][:n]
+    raw = uni.raw_frame(ticks, 5 * 10**9, 2 * 10**18, 4 * 10**16, open_tick=ticks[0])
+    data = uni.prepared(raw, pool)
+    price_df, quote = get_price_from_data(data, pool)
+    frames = aave.make_data(n)
+    prices = aave.price_frame(n, {"DAI": [1, "1.002", 1, "0.998"][:n]})
+    up = _decimal_prices(price_df)
+    usdc_usd = [Decimal("1"), Decimal("0.999"), Decimal("1.001"), Decimal("1")][:n]
+    prices["USDC"] = usdc_usd
+    prices["WETH"] = [up["WETH"].iloc[i] * usdc_usd[i] for i in range(n)]  # consistent: WETH/USD = WETH/USDC x USDC/USD
+    ranges = {"in": (199500, 200500), "lo": (198000, 199000), "hi": (201000, 202000)}
+
+    def build():
+        m = uni.make_market(pool, data, "uni")
+        am = aave.make_market(frames)
+        ctx = Ctx("uni+aave", prices, USD, [UniAdapter(m, ranges), aave.AaveAdapter(am, frames)],
+                  [(uni.USDC, 30000), (uni.WETH, 15), (aave.DAI, 5000), (aave.USDT, 8000), (aave.AAVE, 50), (aave.WBTC, 1)], data.index)
+        _begin(ctx, 1)
+        return ctx
+
+    roots = ((), ("uni.add[in,part,part]", "aave.supply[WETH,part,C]", "aave.borrow[USDC,third]"),
+             ("aave.supply[WETH,part,C]", "aave.borrow[DAI,near]", "uni.add[lo,part,part]"))
+    fr = {f"aave.{k}": v for k, v in frames.items()}
+    fr["prices"] = prices
+    fr["uni.data"] = data
+    return World("uni+aave", build, roots, fr)
+
+
+def deribit_uni_world(hours=3):
+    """Hourly option market beside a minutely pool: bars are minutes, the option market is open on the hour only."""
+    from . import deribit as db
+
+    pool = uni.pool_q0()
+    n = (hours - 1) * 60 + 1
+    ticks = [200000 + (13 * i) % 40 - 20 for i in range(n)]
+    raw = uni.raw_frame(ticks, 5 * 10**8, 2 * 10**17, 4 * 10**16, open_tick=ticks[0])
+    data = uni.prepared(raw, pool)
+    price_df, quote = get_price_from_data(data, pool)
+    odata = db.std_frame(hours)
+    prices = db.price_frame(odata).loc[data.index[0]:data.index[-1]].copy()
+    up = _decimal_prices(price_df)
+    prices["WETH"] = up["WETH"]
+    prices["USDC"] = Decimal(1)
+    ranges = {"in": (199500, 200500), "lo": (198000, 199000), "hi": (201000, 202000)}
+
+    def build():
+        m = uni.make_market(pool, data, "uni")
+        om = db.make_market(odata)
+        ctx = Ctx("deribit+uni", prices, USD, [UniAdapter(m, ranges), db.DeribitAdapter(om, odata)], [(uni.USDC, 10000), (uni.WETH, 5), (db.ETH, 4)],
+                  data.index)
+        _begin(ctx, 0)
+        return ctx
+
+    roots = ((), ("deribit.deposit[part]", "deribit.buy[C1,2,market]"), ("uni.add[in,part,part]", "deribit.deposit[part]", "deribit.buy[P1,1,market]"))
+    return World("deribit+uni", build, roots, {"uni.data": data, "deribit.data": odata, "prices": prices})
